@@ -29,7 +29,14 @@ def _val(v):
 
 
 def model_fp(m) -> str:
-    return f"{type(m).__module__}.{type(m).__name__}@{id(m)}:" + _val({k: v for k, v in vars(m).items()})
+    attrs = {k: v for k, v in vars(m).items()}
+    # mutable containers held by the model's classes (e.g. more_header_registry) are shared state as well
+    for cls in type(m).__mro__:
+        if getattr(cls, "__module__", "").startswith("joserfc"):
+            for k, v in vars(cls).items():
+                if isinstance(v, (dict, list, set)) and not k.startswith("__") and k not in attrs:
+                    attrs[f"{cls.__name__}.{k}"] = sorted(v, key=str) if isinstance(v, set) else v
+    return f"{type(m).__module__}.{type(m).__name__}@{id(m)}:" + _val(attrs)
 
 
 def registries() -> dict[str, str]:
